@@ -144,6 +144,9 @@ type Net struct {
 	Cap    int
 	// KeepLog makes every pipe record the bytes written into it (Pipe.WLog).
 	KeepLog bool
+	// Mangle is the middlebox: it may alter or drop (return nil) the bytes of one write before they
+	// enter the pipe. The writer still sees the write succeed.
+	Mangle func(p *Pipe, b []byte) []byte
 
 	Dials, DialFails, Listens, ListenFails int
 	DialTimes                              []time.Duration
@@ -702,6 +705,11 @@ func (p *Pipe) enqueue(b []byte) {
 	}
 	if p.readerGone && p.sink == nil {
 		return // the other end has closed: bytes vanish
+	}
+	if p.n.Mangle != nil {
+		if b = p.n.Mangle(p, b); len(b) == 0 {
+			return
+		}
 	}
 	plans := []SegPlan{{Size: len(b), Delay: p.n.LatMin}}
 	if p.n.Seg != nil {
